@@ -69,8 +69,8 @@ R = [
          "        timer.elapsed()\n        if timer.reached_time_limit():\n            logger.debug(\"Reached time limit (%f)\", timer.elapsed())"),
     ]),
     ("callbacks_before_lamb_max_test", ["C12", "C15", "C07", "C16"], [
-        ("pygradflow/solver.py", "            if lamb >= params.lamb_max:\n                raise Exception(\n                    f\"Inverse step size {lamb} exceeded maximum {params.lamb_max} (incorrect derivatives?)\"\n                )\n\n            primal_step_norm = float(np.linalg.norm(next_iterate.x - iterate.x))\n            dual_step_norm = float(np.linalg.norm(next_iterate.y - iterate.y))\n\n            self.callbacks(CallbackType.ComputedStep, iterate, next_iterate, accept)\n",
-         "            primal_step_norm = float(np.linalg.norm(next_iterate.x - iterate.x))\n            dual_step_norm = float(np.linalg.norm(next_iterate.y - iterate.y))\n\n            self.callbacks(CallbackType.ComputedStep, iterate, next_iterate, accept)\n\n            if lamb >= params.lamb_max:\n                raise Exception(\n                    f\"Inverse step size {lamb} exceeded maximum {params.lamb_max} (incorrect derivatives?)\"\n                )\n"),
+        ("pygradflow/solver.py", "            # a step that was cut short by the deadline is not a failed step:\n            # the termination test of the next iteration reports the time limit\n            if lamb >= params.lamb_max and not timer.reached_time_limit():\n                raise Exception(\n                    f\"Inverse step size {lamb} exceeded maximum {params.lamb_max} (incorrect derivatives?)\"\n                )\n\n            primal_step_norm = float(np.linalg.norm(next_iterate.x - iterate.x))\n            dual_step_norm = float(np.linalg.norm(next_iterate.y - iterate.y))\n\n            self.callbacks(CallbackType.ComputedStep, iterate, next_iterate, accept)\n",
+         "            primal_step_norm = float(np.linalg.norm(next_iterate.x - iterate.x))\n            dual_step_norm = float(np.linalg.norm(next_iterate.y - iterate.y))\n\n            self.callbacks(CallbackType.ComputedStep, iterate, next_iterate, accept)\n\n            # a step that was cut short by the deadline is not a failed step:\n            # the termination test of the next iteration reports the time limit\n            if lamb >= params.lamb_max and not timer.reached_time_limit():\n                raise Exception(\n                    f\"Inverse step size {lamb} exceeded maximum {params.lamb_max} (incorrect derivatives?)\"\n                )\n"),
     ]),
     ("penalty_update_before_callbacks_attr", ["C16", "C12", "C18"], [
         # solver.rho (an attribute, not what the trial steps use) is refreshed one statement earlier
